@@ -1,5 +1,5 @@
 (* C05 — Packets arrive whole, in order and unaltered however the transport fragments. *)
-From V Require Import lib.Base model.Channel proofs.ChannelP proofs.ChannelW proofs.ChannelTie gen.Gen_channel.
+From V Require Import lib.Base model.Channel proofs.ChannelP proofs.ChannelW proofs.ChannelTie gen.Gen_channel gen.Gen_stream.
 Open Scope N_scope.
 
 Section C05.
@@ -69,8 +69,10 @@ Print Assumptions c05_cut_exact.
 Theorem c05_generated_params_ok :
   (hdr_size Pgen_sock = 5 /\ hdr_size Pgen_sock + nlen (flusher Pgen_sock) <= chunk Pgen_sock) /\
   (hdr_size Pgen_pipe = 5 /\ hdr_size Pgen_pipe + nlen (flusher Pgen_pipe) <= chunk Pgen_pipe) /\
-  ops_ok.
-Proof. repeat split; try apply side_sock; try apply side_pipe; apply tie_ops. Qed.
+  ops_ok /\
+  (* both stream kinds retry a read that reports would-block: the theorems' [tol = true] instances are the ones that apply *)
+  Gen_stream.PipeStream_read_tolerates_wouldblock = true.
+Proof. repeat split; try apply side_sock; try apply side_pipe; try apply tie_ops; apply tie_pipe_tolerant. Qed.
 Print Assumptions c05_generated_params_ok.
 
 (* non-vacuity: identity "compression", three packets around a tiny threshold/chunk, a fragmenting oracle with timeouts *)
